@@ -32,6 +32,7 @@ import (
 	"fmt"
 	"go/ast"
 	"go/token"
+	"strconv"
 	"strings"
 )
 
@@ -144,10 +145,34 @@ func c19Family(repo string, cfg famCfg) (*C19Family, error) {
 			return nil, fmt.Errorf("%s: constant %s = %#x does not fit the %d-bit type %s", c.Pos, c.Ident, c.Value, fam.Bits, cfg.goType)
 		}
 	}
+	// functions the syntactic readers refuse and that are translated by evaluation instead (c19_eval.go)
+	var evalReqs []evalReq
+	var synErrs []string
 	switch cfg.shape {
 	case "seq", "fields":
-		if err := c19SeqDecomp(p, f, cfg, fam); err != nil {
-			return nil, err
+		err := c19SeqDecomp(p, f, cfg, fam)
+		if err != nil && cfg.shape == "seq" {
+			// the same decomposition written as a loop over a package-level {mask, name} table (any width)
+			fam.Rows, fam.EmptyMode, fam.EmptyLit, fam.Sep = nil, "", "", ""
+			if terr := c19TableLoopDecomp(p, f, cfg, fam); terr == nil {
+				err = nil
+			} else {
+				err = fmt.Errorf("%w\n    as a loop over a table: %v", err, terr)
+			}
+		}
+		if err != nil {
+			fd, _, merr := p.method(f, cfg.goType, cfg.decomp)
+			if merr != nil || fam.Bits > 16 || c19DecompSignature(p, fd, cfg) != nil {
+				return nil, err
+			}
+			fam.Rows, fam.EmptyMode, fam.EmptyLit, fam.Sep = nil, "", "", ""
+			kind := "string"
+			if cfg.shape == "fields" {
+				kind = "names"
+			}
+			evalReqs = append(evalReqs, evalReq{ID: "decomp", Kind: kind, Type: cfg.goType, Method: cfg.decomp})
+			synErrs = append(synErrs, err.Error())
+			p.claimed[fd] = "decomposition (evaluated)"
 		}
 	case "mapsort":
 		if err := c19MapSortDecomp(p, f, cfg, fam); err != nil {
@@ -172,28 +197,394 @@ func c19Family(repo string, cfg famCfg) (*C19Family, error) {
 		if fd.Type.Params.NumFields() != 0 || fd.Type.Results.NumFields() != 1 || p.src(fd.Type.Results.List[0].Type) != "bool" {
 			continue
 		}
-		if len(fd.Recv.List[0].Names) != 1 {
-			return nil, p.errf(fd, "predicate %s has no receiver name", fd.Name.Name)
-		}
-		recv := fd.Recv.List[0].Names[0].Name
-		if len(fd.Body.List) != 1 {
-			return nil, p.errf(fd, "predicate %s: body is not a single return statement", fd.Name.Name)
-		}
-		rs, ok := fd.Body.List[0].(*ast.ReturnStmt)
-		if !ok || len(rs.Results) != 1 {
-			return nil, p.errf(fd, "predicate %s: body is not `return <test>`", fd.Name.Name)
-		}
-		t, err := p.parseTest(rs.Results[0], recv)
+		t, err := c19PredSyntactic(p, fd)
 		if err != nil {
-			return nil, fmt.Errorf("predicate %s: %w", fd.Name.Name, err)
+			// an exported predicate of an 8/16-bit word, value receiver: translated by evaluation
+			_, ptr := fd.Recv.List[0].Type.(*ast.StarExpr)
+			if fam.Bits > 16 || ptr || !fd.Name.IsExported() {
+				return nil, err
+			}
+			evalReqs = append(evalReqs, evalReq{ID: "pred:" + fd.Name.Name, Kind: "bool", Type: cfg.goType, Method: fd.Name.Name})
+			synErrs = append(synErrs, err.Error())
+			p.claimed[fd] = "predicate (evaluated)"
+		} else {
+			p.claimed[fd] = "predicate"
 		}
 		fam.Preds = append(fam.Preds, C19Pred{Func: fd.Name.Name, Test: t, Pos: p.pos(fd)})
-		p.claimed[fd] = "predicate"
+	}
+	if len(evalReqs) > 0 {
+		if err := c19FamilyByEvaluation(p, f, repo, cfg, fam, evalReqs); err != nil {
+			return nil, fmt.Errorf("%s\n  no shape the syntactic reader knows:\n    %s", err, strings.Join(synErrs, "\n    "))
+		}
 	}
 	if err := p.leftovers([]string{cfg.file}, cfg.ignore, true); err != nil {
 		return nil, err
 	}
 	return fam, nil
+}
+
+// Normalisation "rows in a table" (DESIGN.md §7).  Canonical form: the chain
+//
+//	if f&M1 == M1 { list = append(list, "N1") } … ; if len(list) == 0 { return "NONE" } ; return strings.Join(list, SEP)
+//
+// Accepted as the same function: the rows kept in a package-level table and visited in order,
+//
+//	var T = [...]struct{ mask X; name string }{ {M1, "N1"}, … }          (array or slice; positional or keyed elements)
+//	func (f X) String() string {
+//	    LIST                                                              var l []string | l := []string{} | l := make([]string, 0[, n])
+//	    for _, e := range T { if f&e.mask TEST { l = append(l, e.name) } }    TEST: == e.mask | != 0
+//	                        | { if f&e.mask == 0 { continue } ; l = append(l, e.name) }
+//	    if len(l) == 0 { return "NONE" } ; return strings.Join(l, SEP)
+//	}
+//
+// or written straight into a strings.Builder (`if sb.Len() > 0 { sb.WriteByte('|') | sb.WriteString("|") };
+// sb.WriteString(e.name)` in the loop, `if sb.Len() == 0 { return "NONE" }; return sb.String()` after it), which
+// is strings.Join as long as no name is empty (checked).  A range over an array or slice visits the elements in
+// index order, so the rows are the table's elements in source order.  `f&M != 0` and `f&M == 0 → skip` are
+// the canonical test `f&M == M` exactly when M is a single bit; for a mask of several bits they are a different
+// function and are emitted as what they are (⟨M, 0, true⟩), which the theorems about single bits then reject.
+func c19TableLoopDecomp(p *c19pkg, f *ast.File, cfg famCfg, fam *C19Family) error {
+	fd, recv, err := p.method(f, cfg.goType, cfg.decomp)
+	if err != nil {
+		return err
+	}
+	if err := c19DecompSignature(p, fd, cfg); err != nil {
+		return err
+	}
+	b := fd.Body.List
+	if len(b) != 4 {
+		return p.errf(fd, "%s: expected 4 statements (list or builder; range over the table; empty-result clause; return), found %d", cfg.decomp, len(b))
+	}
+	// accumulator
+	list, builder := "", ""
+	switch x := b[0].(type) {
+	case *ast.DeclStmt:
+		if g, ok := x.Decl.(*ast.GenDecl); ok && g.Tok == token.VAR && len(g.Specs) == 1 {
+			vs := g.Specs[0].(*ast.ValueSpec)
+			if len(vs.Names) == 1 && len(vs.Values) == 0 {
+				switch p.src(vs.Type) {
+				case "[]string":
+					list = vs.Names[0].Name
+				case "strings.Builder":
+					builder = vs.Names[0].Name
+				}
+			}
+		}
+	case *ast.AssignStmt:
+		if x.Tok == token.DEFINE && len(x.Lhs) == 1 && len(x.Rhs) == 1 {
+			if p.src(x.Rhs[0]) == "[]string{}" {
+				list = p.src(x.Lhs[0])
+			} else if call, ok := x.Rhs[0].(*ast.CallExpr); ok && p.src(call.Fun) == "make" && (len(call.Args) == 2 || len(call.Args) == 3) && p.src(call.Args[0]) == "[]string" && p.src(call.Args[1]) == "0" {
+				list = p.src(x.Lhs[0])
+			}
+		}
+	}
+	if list == "" && builder == "" {
+		return p.errf(b[0], "%s: `%s` declares neither an empty []string nor a strings.Builder", cfg.decomp, firstLine(p.src(b[0])))
+	}
+	// the loop
+	rs, ok := b[1].(*ast.RangeStmt)
+	if !ok || rs.Tok != token.DEFINE || rs.Key == nil || p.src(rs.Key) != "_" || rs.Value == nil {
+		return p.errf(b[1], "%s: second statement is not `for _, e := range TABLE`", cfg.decomp)
+	}
+	tid, ok := rs.X.(*ast.Ident)
+	if !ok {
+		return p.errf(b[1], "%s: the loop does not range over a package-level table", cfg.decomp)
+	}
+	e := p.src(rs.Value)
+	g, vs, err := p.findVar(f, tid.Name)
+	if err != nil {
+		return err
+	}
+	cl, ok := vs.Values[0].(*ast.CompositeLit)
+	if !ok {
+		return p.errf(vs, "var %s is not a composite literal", tid.Name)
+	}
+	at, ok := cl.Type.(*ast.ArrayType)
+	if !ok {
+		return p.errf(vs, "var %s is not an array or slice", tid.Name)
+	}
+	if at.Len != nil {
+		if el, ok := at.Len.(*ast.Ellipsis); !ok || el.Elt != nil {
+			if _, err := p.constExpr(at.Len); err != nil {
+				return p.errf(vs, "var %s: array length not understood", tid.Name)
+			}
+		}
+	}
+	st, ok := at.Elt.(*ast.StructType)
+	if !ok || st.Fields.NumFields() != 2 {
+		return p.errf(vs, "var %s: element type is not struct{ mask T; name string }", tid.Name)
+	}
+	var fieldNames []string
+	for _, fl := range st.Fields.List {
+		for _, nm := range fl.Names {
+			fieldNames = append(fieldNames, nm.Name)
+		}
+	}
+	if len(fieldNames) != 2 || p.src(st.Fields.List[len(st.Fields.List)-1].Type) != "string" || len(st.Fields.List) != 2 {
+		return p.errf(vs, "var %s: element type is not struct{ mask T; name string }", tid.Name)
+	}
+	maskF, nameF := fieldNames[0], fieldNames[1]
+	type trow struct {
+		mask uint64
+		name string
+		node ast.Node
+	}
+	var trows []trow
+	for i, el := range cl.Elts {
+		if kv, ok := el.(*ast.KeyValueExpr); ok { // [i]: {…} would reorder
+			return p.errf(kv, "var %s: indexed element", tid.Name)
+		}
+		ecl, ok := el.(*ast.CompositeLit)
+		if !ok || len(ecl.Elts) != 2 {
+			return p.errf(el, "var %s: element %d is not {mask, name}", tid.Name, i)
+		}
+		var me, ne ast.Expr
+		for k, x := range ecl.Elts {
+			if kv, ok := x.(*ast.KeyValueExpr); ok {
+				switch p.src(kv.Key) {
+				case maskF:
+					me = kv.Value
+				case nameF:
+					ne = kv.Value
+				}
+			} else if k == 0 {
+				me = x
+			} else {
+				ne = x
+			}
+		}
+		if me == nil || ne == nil {
+			return p.errf(el, "var %s: element %d is not {mask, name}", tid.Name, i)
+		}
+		m, err := p.constExpr(me)
+		if err != nil {
+			return err
+		}
+		nm, err := p.stringLit(ne)
+		if err != nil {
+			return err
+		}
+		if fam.Bits < 64 && m>>uint(fam.Bits) != 0 {
+			return p.errf(el, "var %s: mask %#x does not fit the %d-bit type", tid.Name, m, fam.Bits)
+		}
+		trows = append(trows, trow{m, nm, el})
+	}
+	if len(trows) == 0 {
+		return p.errf(vs, "var %s: empty table", tid.Name)
+	}
+	// the loop body: which test, and the emission
+	body := rs.Body.List
+	maskE, nameE := e+"."+maskF, e+"."+nameF
+	test := "" // "eqmask" | "nonzero"
+	if len(body) >= 1 {
+		if ifs, ok := body[0].(*ast.IfStmt); ok && ifs.Init == nil && ifs.Else == nil {
+			switch p.src(ifs.Cond) {
+			case recv + "&" + maskE + " == " + maskE:
+				test = "eqmask"
+			case recv + "&" + maskE + " != 0":
+				test = "nonzero"
+			case recv + "&" + maskE + " == 0":
+				if len(ifs.Body.List) == 1 && p.src(ifs.Body.List[0]) == "continue" && len(body) > 1 {
+					test, body = "nonzero", body[1:]
+				}
+			}
+			if test != "" && len(body) == 1 && body[0] == ast.Stmt(ifs) {
+				body = ifs.Body.List
+			} else if test != "" && body[0] == ast.Stmt(ifs) {
+				test = ""
+			}
+		}
+	}
+	if test == "" {
+		return p.errf(rs, "%s: the loop body does not test `%s&%s` (== %s, != 0, or == 0 → continue)", cfg.decomp, recv, maskE, maskE)
+	}
+	sep := ""
+	if list != "" {
+		l, x, ok := p.appendStmt(body[0])
+		if len(body) != 1 || !ok || l != list || p.src(x) != nameE {
+			return p.errf(rs, "%s: the loop does not `%s = append(%s, %s)`", cfg.decomp, list, list, nameE)
+		}
+	} else {
+		// if sb.Len() > 0 { sb.WriteByte('|') }; sb.WriteString(e.name)
+		if len(body) != 2 || p.src(body[1]) != builder+".WriteString("+nameE+")" {
+			return p.errf(rs, "%s: the loop does not end in %s.WriteString(%s)", cfg.decomp, builder, nameE)
+		}
+		ifs, ok := body[0].(*ast.IfStmt)
+		if !ok || ifs.Init != nil || ifs.Else != nil || len(ifs.Body.List) != 1 || (p.src(ifs.Cond) != builder+".Len() > 0" && p.src(ifs.Cond) != builder+".Len() != 0") {
+			return p.errf(rs, "%s: no `if %s.Len() > 0 { write the separator }` before the name", cfg.decomp, builder)
+		}
+		es, ok := ifs.Body.List[0].(*ast.ExprStmt)
+		call, ok2 := ast.Expr(nil), false
+		if ok {
+			call, ok2 = es.X, true
+		}
+		c, ok3 := call.(*ast.CallExpr)
+		if !ok2 || !ok3 || len(c.Args) != 1 {
+			return p.errf(ifs, "%s: separator write not understood", cfg.decomp)
+		}
+		switch p.src(c.Fun) {
+		case builder + ".WriteString":
+			if sep, err = p.stringLit(c.Args[0]); err != nil {
+				return err
+			}
+		case builder + ".WriteByte", builder + ".WriteRune":
+			bl, ok := c.Args[0].(*ast.BasicLit)
+			if !ok || bl.Kind != token.CHAR {
+				return p.errf(ifs, "%s: separator write not understood", cfg.decomp)
+			}
+			r, _, _, err := strconv.UnquoteChar(bl.Value[1:len(bl.Value)-1], '\'')
+			if err != nil || (p.src(c.Fun) == builder+".WriteByte" && r > 0x7f) {
+				return p.errf(ifs, "%s: separator write not understood", cfg.decomp)
+			}
+			sep = string(r)
+		default:
+			return p.errf(ifs, "%s: separator write not understood", cfg.decomp)
+		}
+		for _, r := range trows {
+			if r.name == "" {
+				return p.errf(r.node, "an empty name: with a strings.Builder `Len() == 0` no longer means that no row fired")
+			}
+		}
+	}
+	// empty-result clause and return
+	ifs, ok := b[2].(*ast.IfStmt)
+	wantCond := "len(" + list + ") == 0"
+	if builder != "" {
+		wantCond = builder + ".Len() == 0"
+	}
+	if !ok || ifs.Init != nil || ifs.Else != nil || len(ifs.Body.List) != 1 || p.src(ifs.Cond) != wantCond {
+		return p.errf(b[2], "%s: third statement is not `if %s { return \"…\" }`", cfg.decomp, wantCond)
+	}
+	ret, ok := ifs.Body.List[0].(*ast.ReturnStmt)
+	if !ok || len(ret.Results) != 1 {
+		return p.errf(b[2], "%s: empty-result clause is not a return", cfg.decomp)
+	}
+	lit, err := p.stringLit(ret.Results[0])
+	if err != nil {
+		return err
+	}
+	last, ok := b[3].(*ast.ReturnStmt)
+	if !ok || len(last.Results) != 1 {
+		return p.errf(b[3], "%s: last statement is not a return", cfg.decomp)
+	}
+	if builder != "" {
+		if p.src(last.Results[0]) != builder+".String()" {
+			return p.errf(b[3], "%s: does not return %s.String()", cfg.decomp, builder)
+		}
+	} else if sep, ok = p.joinCall(last.Results[0], list); !ok {
+		return p.errf(b[3], "%s: `%s` is not return strings.Join(%s, SEP)", cfg.decomp, p.src(b[3]), list)
+	}
+	for _, r := range trows {
+		t := C19Test{Mask: r.mask, Rhs: r.mask, Neg: false, Src: recv + "&" + maskE + " == " + maskE}
+		if test == "nonzero" && (r.mask == 0 || r.mask&(r.mask-1) != 0) {
+			t = C19Test{Mask: r.mask, Rhs: 0, Neg: true, Src: recv + "&" + maskE + " != 0"}
+		}
+		fam.Rows = append(fam.Rows, C19Row{Test: t, Name: r.name, Pos: p.pos(r.node)})
+	}
+	fam.EmptyMode, fam.EmptyLit, fam.Sep = "return", lit, sep
+	p.claimed[fd] = "decomposition"
+	if len(g.Specs) == 1 {
+		p.claimed[g] = "decomposition table"
+	} else {
+		p.claimed[vs] = "decomposition table"
+	}
+	return nil
+}
+
+// c19PredSyntactic reads `func (f T) Name() bool { return f&M ==/!= R }`
+func c19PredSyntactic(p *c19pkg, fd *ast.FuncDecl) (C19Test, error) {
+	if len(fd.Recv.List[0].Names) != 1 {
+		return C19Test{}, p.errf(fd, "predicate %s has no receiver name", fd.Name.Name)
+	}
+	recv := fd.Recv.List[0].Names[0].Name
+	if len(fd.Body.List) != 1 {
+		return C19Test{}, p.errf(fd, "predicate %s: body is not a single return statement", fd.Name.Name)
+	}
+	rs, ok := fd.Body.List[0].(*ast.ReturnStmt)
+	if !ok || len(rs.Results) != 1 {
+		return C19Test{}, p.errf(fd, "predicate %s: body is not `return <test>`", fd.Name.Name)
+	}
+	t, err := p.parseTest(rs.Results[0], recv)
+	if err != nil {
+		return C19Test{}, fmt.Errorf("predicate %s: %w", fd.Name.Name, err)
+	}
+	return t, nil
+}
+
+// c19DecompSignature: String() string for a `seq` family, FromBytes(value byte) for a `fields` family
+func c19DecompSignature(p *c19pkg, fd *ast.FuncDecl, cfg famCfg) error {
+	if cfg.shape == "fields" {
+		if fd.Type.Params.NumFields() != 1 || fd.Type.Results.NumFields() != 0 || p.src(fd.Type.Params.List[0].Type) != "byte" {
+			return p.errf(fd, "%s: expected one byte parameter and no result", cfg.decomp)
+		}
+		return nil
+	}
+	if fd.Type.Params.NumFields() != 0 || fd.Type.Results.NumFields() != 1 || p.src(fd.Type.Results.List[0].Type) != "string" {
+		return p.errf(fd, "%s: expected signature () string", cfg.decomp)
+	}
+	if _, ptr := fd.Recv.List[0].Type.(*ast.StarExpr); ptr {
+		return p.errf(fd, "%s: pointer receiver", cfg.decomp)
+	}
+	return nil
+}
+
+// c19FamilyByEvaluation translates the functions of a small-word family that the syntactic readers
+// refused by running them on the whole domain (c19_eval.go).  Unexported functions and variables of the
+// file are then helpers of the evaluated methods: they have no behaviour of their own for this property
+// beyond what the exported methods that reach them answered on every word, and are accepted; an
+// EXPORTED function no recogniser reads is still an error (a new naming function must not go unnoticed).
+func c19FamilyByEvaluation(p *c19pkg, f *ast.File, repo string, cfg famCfg, fam *C19Family, reqs []evalReq) error {
+	ans, err := c19Evaluate(repo, cfg.dir, fam.Bits, reqs)
+	if err != nil {
+		return err
+	}
+	for _, r := range reqs {
+		a := ans[r.ID]
+		what := fmt.Sprintf("%s.%s (%s)", cfg.goType, r.Method, fam.File)
+		switch {
+		case r.ID == "decomp":
+			rows, mode, lit, sep, err := c19SynthDecomp(fam.Bits, a.Strings, a.Names, r.Kind == "names", what)
+			if err != nil {
+				return err
+			}
+			fam.Rows, fam.EmptyMode, fam.EmptyLit, fam.Sep = rows, mode, lit, sep
+		default:
+			t, err := c19SynthPred(fam.Bits, a.Bools, what)
+			if err != nil {
+				return err
+			}
+			for i := range fam.Preds {
+				if fam.Preds[i].Func == r.Method {
+					fam.Preds[i].Test = t
+				}
+			}
+		}
+	}
+	for _, d := range f.Decls {
+		switch x := d.(type) {
+		case *ast.FuncDecl:
+			if _, done := p.claimed[x]; !done && !x.Name.IsExported() {
+				p.claimed[x] = "helper of an evaluated method"
+			}
+		case *ast.GenDecl:
+			if x.Tok != token.VAR {
+				continue
+			}
+			for _, s := range x.Specs {
+				unexported := true
+				for _, id := range s.(*ast.ValueSpec).Names {
+					if id.IsExported() {
+						unexported = false
+					}
+				}
+				if _, done := p.claimed[s]; !done && unexported {
+					p.claimed[s] = "helper of an evaluated method"
+				}
+			}
+		}
+	}
+	return nil
 }
 
 // appendStmt recognises `L = append(L, X)` and returns (L, X)
@@ -406,6 +797,32 @@ func (p *c19pkg) rangeOverMap(st ast.Stmt, mapVar, subject, list string, wantVal
 	return nil
 }
 
+// rangeOverGetFlags recognises, for X the slice GetFlags() returned,
+//
+//	for I, K := range X { L[I] = MAP[K] }      (L made with len(X): sized == X)
+//	for _, K := range X { L = append(L, MAP[K]) }
+func (p *c19pkg) rangeOverGetFlags(rs *ast.RangeStmt, mapVar, list, sized string) error {
+	if rs.Tok != token.DEFINE || rs.Key == nil || rs.Value == nil || len(rs.Body.List) != 1 {
+		return p.errf(rs, "range over the GetFlags() result: expected `for i, k := range … { one statement }`")
+	}
+	idx, key := p.src(rs.Key), p.src(rs.Value)
+	item := mapVar + "[" + key + "]"
+	if sized != "" {
+		if sized != p.src(rs.X) || idx == "_" {
+			return p.errf(rs, "the list is sized by len(%s) but filled from `%s`", sized, p.src(rs.X))
+		}
+		if got, want := p.src(rs.Body.List[0]), list+"["+idx+"] = "+item; got != want {
+			return p.errf(rs, "range body `%s` is not `%s`", got, want)
+		}
+		return nil
+	}
+	l, x, ok := p.appendStmt(rs.Body.List[0])
+	if !ok || l != list || p.src(x) != item {
+		return p.errf(rs, "range body is not `%s = append(%s, %s)`", list, list, item)
+	}
+	return nil
+}
+
 func c19MapSortDecomp(p *c19pkg, f *ast.File, cfg famCfg, fam *C19Family) error {
 	ents, err := p.readMapLiteral(f, cfg.mapVar, cfg.goType, "string", "flag name map of "+cfg.id)
 	if err != nil {
@@ -429,16 +846,63 @@ func c19MapSortDecomp(p *c19pkg, f *ast.File, cfg famCfg, fam *C19Family) error 
 		return p.errf(fd, "String: expected signature () string")
 	}
 	b := fd.Body.List
+	// Normalisation "names through GetFlags" (DESIGN.md §7).  Canonical form: the names of the map entries
+	// whose key has a bit in common with the word, sorted, joined.  Accepted sources of that list:
+	//   (a) for K, V := range MAP { if u&K != 0 { L = append(L, V) } }
+	//   (b) [X := u.GetFlags()]  for I|_, K := range X|u.GetFlags() { L[I] = MAP[K]  |  L = append(L, MAP[K]) }
+	// (b) means the same as (a): GetFlags — which must itself have the canonical shape read below —
+	// returns exactly the keys K of MAP with u&K != 0, each once (map keys are distinct), so MAP[K] over
+	// them is the multiset of names (a) collects, and sort.Strings makes the order immaterial.  L may
+	// start as `[]string{}`, `var L []string`, `make([]string, 0[, n])` (append form) or, for the indexed
+	// form only, `make([]string, len(X))` with X the ranged slice: then every element is assigned exactly
+	// once.  Anything else between these statements is refused.
+	viaGetFlags := ""
+	if len(b) > 0 {
+		if as, ok := b[0].(*ast.AssignStmt); ok && as.Tok == token.DEFINE && len(as.Lhs) == 1 && len(as.Rhs) == 1 && p.src(as.Rhs[0]) == recv+".GetFlags()" {
+			viaGetFlags = p.src(as.Lhs[0])
+			b = b[1:]
+		}
+	}
 	if len(b) != 4 {
-		return p.errf(fd, "String: expected 4 statements (list := []string{}; for range map; sort.Strings; return strings.Join), found %d", len(b))
+		return p.errf(fd, "String: expected 4 statements (list := []string{}; for range map; sort.Strings; return strings.Join), found %d", len(fd.Body.List))
 	}
-	as, ok := b[0].(*ast.AssignStmt)
-	if !ok || as.Tok != token.DEFINE || len(as.Lhs) != 1 || p.src(as.Rhs[0]) != "[]string{}" {
-		return p.errf(b[0], "String: first statement is not `list := []string{}`")
+	list, sized := "", ""
+	switch x := b[0].(type) {
+	case *ast.AssignStmt:
+		if x.Tok == token.DEFINE && len(x.Lhs) == 1 && len(x.Rhs) == 1 {
+			rhs := p.src(x.Rhs[0])
+			if rhs == "[]string{}" {
+				list = p.src(x.Lhs[0])
+			} else if call, ok := x.Rhs[0].(*ast.CallExpr); ok && p.src(call.Fun) == "make" && len(call.Args) >= 2 && len(call.Args) <= 3 && p.src(call.Args[0]) == "[]string" {
+				if p.src(call.Args[1]) == "0" {
+					list = p.src(x.Lhs[0])
+				} else if len(call.Args) == 2 && strings.HasPrefix(p.src(call.Args[1]), "len(") {
+					list, sized = p.src(x.Lhs[0]), strings.TrimSuffix(strings.TrimPrefix(p.src(call.Args[1]), "len("), ")")
+				}
+			}
+		}
+	case *ast.DeclStmt:
+		if g, ok := x.Decl.(*ast.GenDecl); ok && g.Tok == token.VAR && len(g.Specs) == 1 {
+			vs := g.Specs[0].(*ast.ValueSpec)
+			if len(vs.Names) == 1 && len(vs.Values) == 0 && p.src(vs.Type) == "[]string" {
+				list = vs.Names[0].Name
+			}
+		}
 	}
-	list := p.src(as.Lhs[0])
-	if err := p.rangeOverMap(b[1], cfg.mapVar, recv, list, true); err != nil {
-		return err
+	if list == "" {
+		return p.errf(b[0], "String: `%s` does not start an empty []string (or one sized by the slice it is filled from)", p.src(b[0]))
+	}
+	if rs, ok := b[1].(*ast.RangeStmt); ok && (p.src(rs.X) == recv+".GetFlags()" || viaGetFlags != "" && p.src(rs.X) == viaGetFlags) {
+		if err := p.rangeOverGetFlags(rs, cfg.mapVar, list, sized); err != nil {
+			return err
+		}
+	} else {
+		if viaGetFlags != "" || sized != "" {
+			return p.errf(b[1], "String: `%s` is not a range over the GetFlags() result", firstLine(p.src(b[1])))
+		}
+		if err := p.rangeOverMap(b[1], cfg.mapVar, recv, list, true); err != nil {
+			return err
+		}
 	}
 	if p.src(b[2]) != "sort.Strings("+list+")" {
 		return p.errf(b[2], "String: `%s` is not sort.Strings(%s)", p.src(b[2]), list)
@@ -462,7 +926,7 @@ func c19MapSortDecomp(p *c19pkg, f *ast.File, cfg famCfg, fam *C19Family) error 
 	if len(g) != 4 {
 		return p.errf(gd, "GetFlags: expected 4 statements, found %d", len(g))
 	}
-	as, ok = g[0].(*ast.AssignStmt)
+	as, ok := g[0].(*ast.AssignStmt)
 	if !ok || as.Tok != token.DEFINE || len(as.Lhs) != 1 || p.src(as.Rhs[0]) != "[]"+cfg.goType+"{}" {
 		return p.errf(g[0], "GetFlags: first statement is not `flags := []%s{}`", cfg.goType)
 	}
